@@ -5,7 +5,7 @@ import regex as re
 from multidecoder.node import Node
 from multidecoder.registry import decoder
 
-XML_ESCAPE_RE = rb"(?i)(?:&#(x[a-z0-9]{2}|(?:25[0-5]|2[0-4][0-9]|[0-1]?[0-9]{1,2}));){5,}"
+XML_ESCAPE_RE = rb"(?i)(?:&#(x[a-f0-9]{2}|(?:25[0-5]|2[0-4][0-9]|[0-1]?[0-9]{1,2}));){5,}"
 
 
 def unescape_xml(data: bytes) -> bytes:
